@@ -204,9 +204,9 @@ pub fn run_campaign(ctx: &Ctx, bin: &Path, check: &str, raw: bool, runs_per_job:
     if let Ok(rd) = std::fs::read_dir(wd.join("viol")) {
         for e in rd.flatten() {
             let Ok(t) = std::fs::read_to_string(e.path()) else { continue };
-            if let Ok(FuzzOutcome::Violated { check: c, sig, msg, case }) = serde_json::from_str::<FuzzOutcome>(&t) {
+            if let Ok(FuzzOutcome::Violated { check: c, sig, msg, case, traced }) = serde_json::from_str::<FuzzOutcome>(&t) {
                 camp.violations += 1;
-                ctx.record_violation(&c, Fail::new(&sig, format!("(found by the coverage-guided campaign) {}", msg)), case);
+                ctx.record_violation_traced(&c, Fail::new(&sig, format!("(found by the coverage-guided campaign) {}", msg)), case, traced);
             }
         }
     }
